@@ -60,4 +60,130 @@ theorem efd_history_independent_of_simple {n n' w : Nat} {B : Base} {g : State} 
   efd_history_independent_of_pre hc he h hP hP' (distinctFaces_of_simple B idx h hs)
     (distinctFaces_slice_of_simple B idx h hs) hist order
 
+/-! Part 2: C03 → C09 wiring (incidence transport `Lemmas/C03Transport.lean`): `Incidence.Pre` and `DistinctFaces`
+    of the subset are THEOREMS, so the `efd` history theorems need no hypothesis about the subset. -/
+
+section Wire
+variable {n w : Nat} {s : Src} {idx : List Nat}
+
+theorem nPerFace_getD_src (h : Pre n w s idx) {f : Nat} (hf : f < s.t.length) :
+    (nNodesPerFace s.t).getD f 0 = (faceOf (rowAt s.t f)).length := by
+  have hN : nNodesPerFace s.t = s.t.map (fun r => (faceOf r).length) := h.2.1.2.2.2.2
+  rw [hN]
+  simp [rowAt, List.getD, List.getElem?_eq_getElem hf]
+
+/-- a real edge of a source face sits in a slot below the corner count and is a valid edge number -/
+theorem real_edge_slot (h : Pre n w s idx) {f : Nat} (hf : f < s.t.length) {x : Int}
+    (hx : x ∈ Incidence.faceEdgesOf s.FE (nNodesPerFace s.t) f) :
+    x ∈ rowAt s.FE f ∧ x ≠ FILL := by
+  unfold Incidence.faceEdgesOf at hx
+  rw [nPerFace_getD_src h hf] at hx
+  refine ⟨(List.take_sublist _ _).subset hx, ?_⟩
+  obtain ⟨j, hj, rfl⟩ := List.getElem_of_mem hx
+  rw [List.length_take] at hj
+  obtain ⟨_, hrow⟩ := h.2.1.2.2.2.1
+  dsimp only at hrow
+  obtain ⟨hlen, hslots⟩ := hrow f hf
+  have hjw : j < w := by omega
+  have := hslots j hjw
+  rw [if_pos (by omega)] at this
+  obtain ⟨_, _, e0, he0, _⟩ := this
+  have hent : entry (rowAt s.FE f) j = ((rowAt s.FE f).take (faceOf (rowAt s.t f)).length)[j]'(by
+      rw [List.length_take]; omega) := by
+    unfold entry; rw [getD_lt FILL (by omega), List.getElem_take]
+  rw [← hent]
+  intro hF
+  rw [hF] at he0
+  exact absurd (getI?_some he0).1 (by decide)
+
+theorem subMesh_slice (h : Pre n w s idx) :
+    Incidence.SubMesh s.FE (nNodesPerFace s.t) (sliceFaces s idx).FE (nNodesPerFace (sliceFaces s idx).t)
+      (sliceFaces s idx).EN.length idx (edgeSel s idx) (remap (edgeSel s idx)) where
+  faces := by simp [sliceFaces]
+  idx_nodup := h.2.2.2
+  idx_lt := by
+    intro f hf
+    have hlenFE : s.FE.length = s.t.length := h.2.1.2.2.2.1.1
+    rw [hlenFE]; exact h.2.2.1 f hf
+  es_len := by simp [sliceFaces]
+  es_nodup := nodup_sel _
+  rows := fun i hi => faceEdgesOf_sub h hi
+  ren_es := by
+    intro k hk
+    have hek : (edgeSel s idx)[k] ∈ edgeSel s idx := List.getElem_mem hk
+    rw [remap_of_ne (mem_sel.mp hek).2, idxOf_getElem_nodupI (l := edgeSel s idx) (nodup_sel _) hk]
+  covered := by
+    intro f hf x hx
+    obtain ⟨hrow, hne⟩ := real_edge_slot h (h.2.2.1 f hf) hx
+    exact mem_sel.mpr ⟨mem_gather.mpr ⟨f, hf, hrow⟩, hne⟩
+  used := by
+    intro e he
+    obtain ⟨f, hf, j, hjw, hjk, hent, _⟩ := edge_slot h he
+    refine ⟨f, hf, ?_⟩
+    have hft := h.2.2.1 f hf
+    unfold Incidence.faceEdgesOf
+    rw [nPerFace_getD_src h hft]
+    obtain ⟨_, hrow⟩ := h.2.1.2.2.2.1
+    dsimp only at hrow
+    obtain ⟨hlen, _⟩ := hrow f hft
+    have hjl : j < (rowAt s.FE f).length := by omega
+    have : e = ((rowAt s.FE f).take (faceOf (rowAt s.t f)).length)[j]'(by
+        rw [List.length_take]; omega) := by
+      rw [List.getElem_take, ← hent]; unfold entry; rw [getD_lt FILL hjl]
+    rw [this]; exact List.getElem_mem _
+
+end Wire
+
+/-- **`Incidence.Pre` of the subset is a theorem** (C03 incidence transport + `slice_std`) -/
+theorem pre_slice {n w : Nat} (B : Base) (idx : List Nat)
+    (h : Pre n w { t := B.t, EN := B.EN, FE := B.FE } idx)
+    (hP : Incidence.Pre n B.t B.FE B.N B.EN.length) :
+    Incidence.Pre (sliceFaces { t := B.t, EN := B.EN, FE := B.FE } idx).nodeIdx.length
+      (B.slice idx).t (B.slice idx).FE (B.slice idx).N (B.slice idx).EN.length := by
+  have hS := subMesh_slice h
+  refine Incidence.pre_sub hP hS (by simp [Base.slice, sliceFaces]) ?_
+  intro f hf v hv
+  have hstd := slice_std h
+  have hr : rowAt (B.slice idx).t f ∈ (B.slice idx).t := rowAt_mem hf
+  have hrow := hstd _ hr
+  rw [Pipeline.real_of_std hrow] at hv
+  exact hrow.2.2.1 v hv
+
+/-- `efdTransport_of_pre` without `hP'` and `hD'` -/
+theorem efdTransport_of_pre' {n w : Nat} (B : Base) (idx : List Nat)
+    (h : Pre n w { t := B.t, EN := B.EN, FE := B.FE } idx)
+    (hP : Incidence.Pre n B.t B.FE B.N B.EN.length)
+    (hD : DistinctFaces B.EF) : EFDTransport B idx :=
+  efdTransport_of_pre B idx h hP (pre_slice B idx h hP) hD
+    (Incidence.distinctFaces_sub hP (subMesh_slice h) hD)
+
+/-- `efd_history_independent_of_pre` without `hP'` and `hD'` -/
+theorem efd_history_independent_of_pre' {n w : Nat} {B : Base} {g : State} (hc : Coh B g) (he : EfdOK B g)
+    {idx : List Nat} (h : Pre n w { t := B.t, EN := B.EN, FE := B.FE } idx)
+    (hP : Incidence.Pre n B.t B.FE B.N B.EN.length)
+    (hD : DistinctFaces B.EF) (hist order : List Var) :
+    ((runHist g hist).bind (fun g => g.slice idx)).bind (fun u => u.viewEFD order)
+      = some (B.slice idx).EFD :=
+  efd_history_independent hc he h.2.2.1 (efdTransport_of_pre' B idx h hP hD) hist order
+
+/-- `subset_incidence` without its run-time hypothesis -/
+theorem subset_incidence' {n w : Nat} (B : Base) (idx : List Nat)
+    (h : Pre n w { t := B.t, EN := B.EN, FE := B.FE } idx)
+    (hP : Incidence.Pre n B.t B.FE B.N B.EN.length) :
+    Incidence.Spec (sliceFaces { t := B.t, EN := B.EN, FE := B.FE } idx).nodeIdx.length
+      (B.slice idx).t (B.slice idx).FE (B.slice idx).N (B.slice idx).EN.length
+      (Incidence.build (sliceFaces { t := B.t, EN := B.EN, FE := B.FE } idx).nodeIdx.length (B.slice idx).w
+        (B.slice idx).t (B.slice idx).FE (B.slice idx).N (B.slice idx).EN.length) :=
+  C03.build_meets_spec (pre_slice B idx h hP)
+
+/-- C09x's `efd_history_independent_of_simple` without `hP'`: the only hypotheses left are about the SOURCE
+    (C09's `Pre`, C03's `Pre`, simple faces) -/
+theorem efd_history_independent_of_simple_src {n w : Nat} {B : Base} {g : State} (hc : Coh B g)
+    (he : EfdOK B g) {idx : List Nat} (h : Pre n w { t := B.t, EN := B.EN, FE := B.FE } idx)
+    (hP : Incidence.Pre n B.t B.FE B.N B.EN.length)
+    (hs : SimpleFaces B.t) (hist order : List Var) :
+    ((runHist g hist).bind (fun g => g.slice idx)).bind (fun u => u.viewEFD order)
+      = some (B.slice idx).EFD :=
+  efd_history_independent_of_simple hc he h hP (pre_slice B idx h hP) hs hist order
+
 end UxVerif.C09
